@@ -449,6 +449,23 @@ def real_commas(value):
     return ('ok', r)
 
 
+def ends_inside_quotes(value):
+    """True when a quoted string is still open at the end of the text: a
+    quote opens one, inside it a backslash escapes the next character, the
+    next bare quote closes it.  Independent of what unquoted blanks mean."""
+    inside = False
+    i = 0
+    while i < len(value):
+        c = value[i]
+        if inside and c == '\\':
+            i += 2
+            continue
+        if c == '"':
+            inside = not inside
+        i += 1
+    return inside
+
+
 def check_commas_text(col, sub, value, must=None):
     """Compare split_by_commas(value) with the reference scanner.
 
@@ -473,6 +490,13 @@ def check_commas_text(col, sub, value, must=None):
                         'str' % (value, got[1]), case)
     if want[0] == 'unspec':
         col.unspec(sub, want[1])
+        if want[1] == 'unquoted-space' and ends_inside_quotes(value) and \
+                got[0] != 'err':
+            # whatever blanks between items mean, an opening quote that is
+            # never closed is unbalanced quoting
+            raise Violation(sub, 'split_by_commas(%r) returned %r, expected '
+                            'ValueError (a quoted string is never closed)'
+                            % (value, got[1]), case)
         if allowed is not None and got not in allowed:
             raise Violation(sub, 'split_by_commas(%r) = %r; an unquoted '
                             'backslash is either rejected or literal: '
@@ -593,6 +617,18 @@ def commas_preempt(col):
     col.exhaustive.setdefault(sub, False)
 
 
+def commas_lines(col):
+    """Deterministic: a well-formed beginning, a line break (or other
+    blanks), then a remainder that opens a quote and never closes it."""
+    sub = 'commas/lines'
+    for head in ('a,b', '"x",y', 'a', '"q,q"', 'a,b,c,d'):
+        for br in ('\n', '\r\n', '\n\n', '\t', ' \n ', '\r', '\x0b',
+                   '\x0c'):
+            for tail in ('"c', ',"d', '"', '"e\\"', ',"f,g', '"h\n'):
+                check_commas_text(col, sub, head + br + tail)
+    col.exhaustive[sub] = True
+
+
 def commas_format_tokens(col):
     """Deterministic: every malformed construction with printf / str.format
     tokens in the offending text (and the same tokens in well-formed lists,
@@ -698,6 +734,7 @@ def tasks(tier, seed):
         if i == 0:
             out.append(Task('commas/malformed', commas_format_tokens))
             out.append(Task('commas/preempt', commas_preempt))
+            out.append(Task('commas/lines', commas_lines))
             out.append(Task('commas/first-use', commas_first_use,
                             trials=30 if tier == 'quick' else 300))
         out.append(Task('commas/malformed', commas_malformed,
